@@ -165,7 +165,7 @@ inline void run(Ctx& ctx, Case c) {
   // per-limb data family: dense random (half of the limbs), the zero polynomial, zero on a leading / trailing part, one non-zero
   // coefficient, one repeated value -- "skip the zero limb" / "all coefficients equal" shortcuts must see their trigger
   auto fill_limb = [&](int64_t* p) {
-    const uint64_t fam = rng.below(10);
+    const uint64_t fam = rng.below(12);
     const uint64_t cut = n > 1 ? 1 + rng.below(n - 1) : 0;
     const int64_t rep = rng.sbits(c.bits);
     const uint64_t one = rng.below(n);
@@ -177,6 +177,8 @@ inline void run(Ctx& ctx, Case c) {
         case 7: if (q >= cut) x = 0; break;
         case 8: if (q != one) x = 0; break;
         case 9: x = rep; break;
+        case 10: x = (int64_t)((uint64_t)x & ~0xFFFFFFFFull); if (c.bits >= 34 && q == one && x == 0) x = (int64_t)1 << 32; break;  // multiples of 2^32 (low halves vanish)
+        case 11: if (q != n - 1 && q != n / 2) x = 0; break;  // only the last / the middle coefficient
         default: break;
       }
       p[q] = x;
